@@ -133,6 +133,57 @@ def _trigger(path, kind, a, b, ctx):
   return ''
 
 
+def _scribble(msg, depth=0):
+  """Edits every field of a message in place (values changed, unset fields
+  set, repeated fields extended): a converted object that still shares state
+  with the message it was made from changes with it."""
+  from google.protobuf import descriptor as d
+  for f in msg.DESCRIPTOR.fields:
+    try:
+      if f.label == d.FieldDescriptor.LABEL_REPEATED:
+        cur = getattr(msg, f.name)
+        if f.message_type is not None and f.message_type.GetOptions().map_entry:
+          continue
+        if f.type == d.FieldDescriptor.TYPE_MESSAGE:
+          for sub in list(cur)[:3]:
+            if depth < 2:
+              _scribble(sub, depth + 1)
+          cur.add()
+        elif f.type == d.FieldDescriptor.TYPE_STRING:
+          cur.append('~scribble')
+        elif f.type == d.FieldDescriptor.TYPE_BYTES:
+          cur.append(b'~')
+        elif f.type == d.FieldDescriptor.TYPE_BOOL:
+          cur.append(True)
+        elif f.type == d.FieldDescriptor.TYPE_ENUM:
+          cur.append(f.enum_type.values[-1].number)
+        else:
+          cur.append(7)
+      elif f.type == d.FieldDescriptor.TYPE_MESSAGE:
+        sub = getattr(msg, f.name)
+        sub.SetInParent()
+        if depth < 2:
+          _scribble(sub, depth + 1)
+      elif f.type == d.FieldDescriptor.TYPE_STRING:
+        setattr(msg, f.name, getattr(msg, f.name) + '~scribble')
+      elif f.type == d.FieldDescriptor.TYPE_BYTES:
+        setattr(msg, f.name, getattr(msg, f.name) + b'~')
+      elif f.type == d.FieldDescriptor.TYPE_BOOL:
+        setattr(msg, f.name, not getattr(msg, f.name))
+      elif f.type == d.FieldDescriptor.TYPE_ENUM:
+        others = [v.number for v in f.enum_type.values
+                  if v.number != getattr(msg, f.name)]
+        if others:
+          setattr(msg, f.name, others[-1])
+      elif f.type in (d.FieldDescriptor.TYPE_DOUBLE,
+                      d.FieldDescriptor.TYPE_FLOAT):
+        setattr(msg, f.name, getattr(msg, f.name) + 1.5)
+      else:
+        setattr(msg, f.name, getattr(msg, f.name) + 1)
+    except Exception:  # pylint: disable=broad-except
+      pass  # a field that cannot be edited this way is left alone
+
+
 class _Judge:
   """Applies the rt/ eq/ idem/ raise/ clauses for one value."""
 
@@ -159,8 +210,8 @@ class _Judge:
     # the receiver goes on using its message (a template it edits and sends
     # again): the converted object must not change with it
     for m in (received if isinstance(received, (list, tuple)) else [received]):
-      if hasattr(m, 'Clear'):
-        m.Clear()
+      if hasattr(m, 'DESCRIPTOR'):
+        _scribble(m)
     diffs = cn.diff(canon(x), canon(y))
     seen = set()
     for path, kind, detail, a, b in diffs:
